@@ -944,6 +944,12 @@ from mlmverif.selfcheck import B, OK  # noqa: E402
 _T = 'chainables/transform.py'
 _O = 'chainables/orchestrate.py'
 VARIANTS = [
+    OK('stage-merge-through-a-local', 'chainables/orchestrate.py',
+       "      agg_state = agg_fn.merge_states(agg_states)\n", "      merged_state = agg_fn.merge_states(agg_states)\n      agg_state = merged_state\n"),
+    OK('next-batch-queue-through-a-local', 'chainables/courier_server.py',
+       "      result = self._generator.get_batch(batch_size, block=True)", "      prefetched = self._generator\n      result = prefetched.get_batch(batch_size, block=True)"),
+    OK('input-exhaustion-tested-with-bool', 'chainables/orchestrate.py',
+       "            and input_queue\n", "            and bool(input_queue)\n"),
     B('workers-scheduled-only-while-the-upstream-produces', 'chainables/orchestrate.py',
       "            and input_queue\n", "            and input_queue is not None\n            and not input_queue.enqueue_done\n", 'R-C16-26'),
     OK('shard-iterator-switches-through-locals', 'chainables/orchestrate.py',
